@@ -300,6 +300,36 @@ def run(res, tier):
     res.ob('HANDOFF-ATOMIC', g.where(hs[0]) if hs else g.where(), 'the pool thread handles the head of its batch queue and then removes the head (submission order)', bool(okh), function=g.q,
            key='HANDOFF-ATOMIC|%s|head-first' % g.q,
            message='ThreadPoolThread::MessageReceivedFromOwner no longer takes the Message to handle from the head of _internalQueue: a batch of several Messages of one client is handled out of order')
+    # ---- round 3: three ordering / ownership conditions
+    f = fx.fn1(TP + '::UnregisterClient')
+    puts = [c for c in f.walk() if c['k'] == 'CXXMemberCallExpr' and (c.get('q') or '').endswith('::Put') and c.receiver() is not None and A.strip_casts(c.receiver()).get('n') == '_waitingForCompletion' and len(c.args()) >= 2]
+    okl = bool(puts)
+    for c in puts:
+        a1 = A.strip_casts(c.args()[1])
+        tgt = A.strip_casts(a1['ch'][0]) if a1['k'] == 'UnaryOperator' and a1.get('op') == '&' else None
+        okl = okl and tgt is not None and tgt['k'] == 'DeclRefExpr' and tgt.get('dk') in (None, 'Var') and any(v['k'] == 'VarDecl' and v.get('d') == tgt.get('d') for v in f.walk())
+    res.ob('UNREGISTER', f.where(puts[0]) if puts else f.where(), 'UnregisterClient registers a wait condition that is a local of the call (one per blocked caller)', okl, function=f.q, key='UNREGISTER|%s|private-wait-condition' % f.q,
+           message='UnregisterClient registers a wait condition that is not a local variable of the call: two threads unregistering different clients then wait on one object, the notification '
+                   'for the client that finishes first is consumed by whichever thread waits first — it returns while its client\'s handler is still running, and the other thread waits for ever')
+    g = fx.fn1('muscle::IThreadPoolClient::SetThreadPool')
+    unreg = P.calls(g, r'::UnregisterClient$')
+    asg = [w for w in g.walk() if w['k'] == 'BinaryOperator' and w.get('op') == '=' and A.strip_casts(w['ch'][0]).get('n') == '_threadPool' and A.strip_casts(w['ch'][1]).get('d') == g.params[0]['d']]
+    reg = P.calls(g, r'::RegisterClient$')
+    if not unreg or not asg or not reg:
+        raise AnalysisBroken('UNREGISTER: SetThreadPool: UnregisterClient / _threadPool = tp / RegisterClient not found')
+    late = any(C.can_reach(g, P.pos_of(g, x), set([P.pos_of(g, u)])) or (P.pos_of(g, x)[0] == P.pos_of(g, u)[0] and P.pos_of(g, x)[1] < P.pos_of(g, u)[1]) for x in asg + reg for u in unreg)
+    res.ob('UNREGISTER', g.where(unreg[0]), 'SetThreadPool leaves the old pool (blocking until its Messages are handled) before it switches _threadPool and registers with the new pool', not late, function=g.q,
+           key='UNREGISTER|%s|old-before-new' % g.q,
+           message='SetThreadPool switches to the new pool before UnregisterClient() on the old one has returned: Messages submitted meanwhile are handled by a thread of the new pool in parallel with '
+                   'the old pool\'s thread that is still working on earlier ones — two threads in one client\'s handler, and handling out of submission order')
+    f = fx.fn1(TP + '::ThreadFinishedProcessingClientMessages')
+    mv = [c for c in f.walk() if c['k'] == 'CXXMemberCallExpr' and (c.get('q') or '').endswith('::MoveToTable') and c.receiver() is not None and A.strip_casts(c.receiver()).get('n') == '_activeThreads']
+    disp = P.calls(f, r'::DispatchPendingMessagesUnsafe$')
+    okm = bool(mv) and bool(disp) and all(P.must_precede(f, mv, d, P.escape_edges(f)) for d in disp)
+    res.ob('HANDOFF-ATOMIC', f.where(disp[0]) if disp else f.where(), 'the finishing thread is back in _availableThreads before pending Messages are re-dispatched', okm, function=f.q,
+           key='HANDOFF-ATOMIC|%s|available-before-dispatch' % f.q,
+           message='ThreadFinishedProcessingClientMessages re-dispatches before it has moved the finishing thread to _availableThreads: in a saturated pool the dispatch finds no free thread (and is '
+                   'at the thread limit), gives up, and nothing triggers it again — with one pool thread the pending Messages are never handled and UnregisterClient() hangs')
     res.explanation = ('Static decision of the thread pool\'s locking structure: %d accesses to the pool tables, each with _poolLock in the must-hold lock set (forward data flow over the CFG, RAII guard '
                        'construction/destruction/UnlockEarly as gen/kill, helper preconditions inferred from all call sites); no blocking call under the lock; hand-off, being-handled flag and pending-table '
                        'removal in one critical section; submit chooses the queue by the flag; completion clears, promotes, dispatches under one guard; unregister registers atomically with its test and waits '
